@@ -164,6 +164,27 @@ impl Mix {
     }
 }
 
+static HARNESS_FAULTS: std::sync::Mutex<Vec<String>> = std::sync::Mutex::new(Vec::new());
+
+/// Run harness-side generator code; a panic there is a fault of the harness (reported as
+/// infrastructure, exit 2), never a violation of the property.
+pub fn guard<T>(what: &str, f: impl FnOnce() -> T) -> Option<T> {
+    match catch_unwind(AssertUnwindSafe(f)) {
+        Ok(v) => Some(v),
+        Err(p) => {
+            let mut g = HARNESS_FAULTS.lock().unwrap_or_else(|e| e.into_inner());
+            if g.len() < 5 {
+                g.push(format!("harness fault in {}: {}", what, panic_text(p)));
+            }
+            None
+        }
+    }
+}
+
+pub fn harness_faults() -> Vec<String> {
+    HARNESS_FAULTS.lock().unwrap_or_else(|e| e.into_inner()).clone()
+}
+
 pub fn panic_text(p: Box<dyn std::any::Any + Send>) -> String {
     if let Some(s) = p.downcast_ref::<&str>() {
         s.to_string()
